@@ -11,7 +11,8 @@ V(ty, text, n, dp, codes) == [ty |-> ty, text |-> text, n |-> n, dp |-> dp, code
 Ints == << V("int", "-3", -3000000, 0, <<>>), V("int", "0", 0, 0, <<>>), V("int", "5", 5000000, 0, <<>>),
            V("int", "12", 12000000, 0, <<>>), V("int", "100", 100000000, 0, <<>>) >>
 Decs == << V("float", "0.5", 500000, 1, <<>>), V("float", "1.5", 1500000, 1, <<>>), V("float", "2.25", 2250000, 2, <<>>),
-           V("float", "0.125", 125000, 3, <<>>), V("float", "-1.5", -1500000, 1, <<>>) >>
+           V("float", "0.125", 125000, 3, <<>>), V("float", "234.567891", 234567891, 6, <<>>),    \* more digits than a float32 holds
+           V("float", "-1.5", -1500000, 1, <<>>), V("float", "-99.999999", -99999999, 6, <<>>) >>
 Strs == << V("str", "a", 0, 0, <<97>>), V("str", "b", 0, 0, <<98>>), V("str", "\"it's\"", 0, 0, <<105,116,39,115>>),
            V("str", "\"x''y\"", 0, 0, <<120,39,39,121>>), V("str", "ab", 0, 0, <<97,98>>), V("str", "B", 0, 0, <<66>>),
            V("str", "\"a b\"", 0, 0, <<97,32,98>>),
@@ -23,12 +24,12 @@ Pats == << V("pat", "x*", 0, 0, <<120,42>>), V("pat", "*x", 0, 0, <<42,120>>), V
            V("pat", "a_b*", 0, 0, <<97,95,98,42>>), V("pat", "x.y*", 0, 0, <<120,46,121,42>>),
            V("pat", "x??y", 0, 0, <<120,63,63,121>>), V("pat", "?x?", 0, 0, <<63,120,63>>), V("pat", "*x*y*", 0, 0, <<42,120,42,121,42>>) >>
 Pool(ty) == CASE ty = "int" -> Ints [] ty = "float" -> Decs [] ty = "str" -> Strs
-Small(s) == IF Tier = "quick" THEN SubSeq(s, 1, IF Len(s) > 4 THEN 4 ELSE Len(s)) ELSE s
+Small(s) == IF Tier = "quick" THEN SubSeq(s, 1, IF Len(s) > 5 THEN 5 ELSE Len(s)) ELSE s
 
 \* probe values of a column: every region cut out by the pool's constants
 NumProbes == << -4000000, -3000000, -2999000, -1500000, -1499000, -1000000, 0, 1000, 124000, 125000, 126000, 120000, 130000,
                 500000, 1000000, 1500000, 2240000, 2250000, 2260000, 4999000, 5000000, 5001000, 11000000, 12000000,
-                13000000, 99000000, 100000000, 101000000 >>
+                13000000, 99000000, 100000000, 101000000, 234567000, 234567891, 234568000, -100000000, -99999999, -99999000 >>
 StrProbes == << <<120,39,39,121>>, <<120,39,121>>, <<>>, <<65>>, <<66>>, <<97>>, <<97,32>>, <<97,32,98>>, <<97,44,98>>, <<97,97>>, <<97,98>>, <<97,98,99>>, <<98>>, <<99>>,
                 <<105,116,39,115>>, <<120>>, <<120,121>>, <<120,97,121>>, <<120,95,121>>, <<120,46,121>>, <<120,122,121>>, <<97,120>>, <<121,120>>,
                 <<97,95,98>>, <<97,88,98>>, <<97,88,98,99>>, <<49>>, <<49,48>>, <<57>>, <<42>>, <<120,121,122,121>> >>
@@ -72,6 +73,20 @@ ListCases(ty) ==
              [form |-> "list", items |-> <<vs[1], vs[2], vs[3]>>], <<vs[1], vs[2], vs[3]>>,
              IF ty = "str" THEN "str" ELSE "num", "f:(" \o vs[3].text \o " OR " \o vs[2].text \o " OR " \o vs[1].text \o ")")}
 
+\* a value list mixing integers and decimals
+MixedListCases ==
+  LET is == Small(Ints)  ds == Small(Decs) IN
+  {Case("list", "f:(" \o is[i].text \o " OR " \o ds[j].text \o " OR " \o is[(i % Len(is)) + 1].text \o ")",
+        [form |-> "list", items |-> <<is[i], ds[j], is[(i % Len(is)) + 1]>>], <<is[i], ds[j], is[(i % Len(is)) + 1]>>, "num",
+        "f:(" \o ds[j].text \o " OR " \o is[i].text \o ")") : i \in DOMAIN is, j \in DOMAIN ds}
+\* a wildcard-looking word where no pattern is matched (a comparison, a range bound): it is that string, untranslated
+WildStrs == << V("str", "x*", 0, 0, <<120,42>>), V("str", "b?", 0, 0, <<98,63>>) >>
+WildCmpCases == {Case("cmp", "f" \o OpSym(op) \o WildStrs[i].text, [form |-> "cmp", op |-> op, v |-> WildStrs[i]], <<WildStrs[i]>>, "str",
+                      "f" \o OpSym(op) \o WildStrs[(i % 2) + 1].text) : op \in {">", ">=", "<", "<="}, i \in DOMAIN WildStrs}
+WildRangeCases == {Case("range", "f:" \o Open(inc) \o WildStrs[i].text \o " TO " \o Strs[5].text \o Close(inc),
+                        [form |-> "range", lo |-> WildStrs[i], hi |-> Strs[5], loinc |-> inc, hiinc |-> inc], <<WildStrs[i], Strs[5]>>, "str",
+                        "f:" \o Open(inc) \o Strs[1].text \o " TO " \o WildStrs[i].text \o Close(inc)) : i \in DOMAIN WildStrs, inc \in BOOLEAN}
+
 LikeCases == {Case("like", "f:" \o Pats[i].text, [form |-> "like", pat |-> Pats[i]], <<Pats[i]>>, "str",
                    "f:" \o Pats[(i % Len(Pats)) + 1].text) : i \in DOMAIN Pats}
 
@@ -83,7 +98,7 @@ BigCases == {Case("big", "f" \o OpSym(op) \o Bigs[i].text, [form |-> "big"], <<B
                   Case("big", "f:(" \o Bigs[1].text \o " OR 5)", [form |-> "big"], <<Bigs[1], Ints[3]>>, "num", "")}
 All == BigCases \cup CmpCases("int") \cup CmpCases("float") \cup CmpCases("str")
        \cup RangeCases("int") \cup RangeCases("float") \cup RangeCases("str")
-       \cup ListCases("int") \cup ListCases("str") \cup LikeCases
+       \cup ListCases("int") \cup ListCases("str") \cup LikeCases \cup MixedListCases \cup WildCmpCases \cup WildRangeCases
 Cases == LET s == SetToSeq(All) IN [i \in DOMAIN s |-> [s[i] EXCEPT !.kind = "leaf"] @@ [id |-> i]]
 
 VARIABLE x
